@@ -235,6 +235,13 @@ func runC01(c *fw.Ctx) {
 			fail("after %s %q: %d reachable node(s) absent from the store", opName, p, len(missing))
 			return
 		}
+		if i%3 == 2 {
+			if f := lab.CheckIterVariants(m, model, nodesAfter); f != "" {
+				fail("after %s %q: %s", opName, p, f)
+				return
+			}
+			c.Count("iterate_variant_checks", 1)
+		}
 		sig, aL, aF, aE := lab.Shape(nodesAfter)
 		c.Distinct("shapes", fw.Hash64(sig))
 		if opName == "del" && present && (aF != bF || aE != bE) {
@@ -272,7 +279,7 @@ func init() {
 		ID:    "C01",
 		Level: "exploration",
 		Rule: "seeded histories of 8..60 (quick) / 8..120 (thorough) operations (insert/overwrite, delete of present and absent paths, insert of nil/empty value, typed lookup, rare over-size insert) on one of four stores " +
-			"(memory; memory over memory with base content; persistent; memory over persistent), optionally re-opening the trie (new object, cold cache) at a higher or at the same version every k operations; every fifth operation a second trie object on the same store, root and version must read the same content; at the end the base state below a layered store must be unchanged. Paths are even-length lowercase hex of length 0..12 over 2-4 symbols, " +
+			"(memory; memory over memory with base content; persistent; memory over persistent), optionally re-opening the trie (new object, cold cache) at a higher or at the same version every k operations; every fifth operation a second trie object on the same store, root and version must read the same content; every third operation Iterate over all node kinds (handed-out node keys = the reachable stored nodes, values = model), IterateFrom(root) and a handler error are checked; at the end the base state below a layered store must be unchanged. Paths are even-length lowercase hex of length 0..12 over 2-4 symbols, " +
 			"picked relative to live paths (same, proper prefix, extension, sibling, divergent tail) so that node-boundary coincidences occur. After every operation: every live path looks up to its value, ~20 related absent paths return ErrValueNotPresent, " +
 			"Iterate equals the map, every reachable node is in the store. A history is non-trivial if it contains at least one successful delete that changed the number of branch or extension nodes; distinct by full trace hash",
 		Cases: func(tier string) int {
@@ -283,7 +290,7 @@ func init() {
 		},
 		Run: runC01,
 		Floors: map[string]int64{"ops": 200000, "restructuring_deletes": 5000, "delete_absent": 5000, "insert_empty_value": 2000, "getnodevalue": 2000, "oversize_rejected": 1,
-			"distinct:shapes": 500, "distinct:transitions": 30, "cold_reader_checks": 50000, "base_state_rechecked": 5000,
+			"distinct:shapes": 500, "distinct:transitions": 30, "cold_reader_checks": 50000, "iterate_variant_checks": 80000, "base_state_rechecked": 5000,
 			"t:ins:ext-ends-at0-len1": 1, "t:ins:ext-ends-at0": 1, "t:ins:ext-ends-mid": 1, "t:ins:ext-ends-mid-last": 1, "t:ins:ext-diverge-at0": 1, "t:ins:ext-diverge-mid": 1, "t:ins:ext-diverge-last": 1,
 			"t:ins:leaf-longer": 1, "t:ins:leaf-longer-at0": 1, "t:ins:leaf-shorter": 1, "t:ins:leaf-diverge-at0": 1, "t:ins:leaf-diverge-mid": 1, "t:ins:full-exact-novalue": 1, "t:ins:full-nochild": 1,
 			"t:del:ext-ends-at0": 1, "t:del:ext-ends-mid": 1, "t:del:full-exact-novalue": 1, "t:del:full-exact-value-1ch": 1, "t:del:full-exact-value-2ch": 1, "t:del:leaf-longer-at0": 1, "t:del:leaf-longer": 1,
